@@ -688,13 +688,13 @@ pub fn scn_chunks(out: &mut TraceOut, r: &mut R, _idx: u64, heavy: bool) {
     let empty = std::collections::HashMap::new();
     for bytes in captured.borrow().iter() {
         if bytes.len() < 22 {
-            out.ev(json!({"ev": "Chunk", "codec": chunk.codec, "levels": chunk.levels, "bs": chunk.block_size, "k": chunk.interval,
+            out.ev(json!({"ev": "Chunk", "codec": chunk.codec, "levels": chunk.levels, "bs": chunk.logged_block_size(), "k": chunk.interval.min(1 << 30),
                           "file": {"size": bytes.len(), "trailer": [], "blocks": [], "slack": 0, "error": "too short"}}));
             continue;
         }
         let raw = crate::decode::decode(bytes, 22);
         let kid = |k: &[u8]| -> i64 { dict.strs.binary_search_by(|x| x.as_slice().cmp(k)).map(|i| i as i64 + 1).unwrap_or(0) };
-        out.ev(json!({"ev": "Chunk", "codec": chunk.codec, "levels": chunk.levels, "bs": chunk.block_size, "k": chunk.interval,
+        out.ev(json!({"ev": "Chunk", "codec": chunk.codec, "levels": chunk.levels, "bs": chunk.logged_block_size(), "k": chunk.interval.min(1 << 30),
                       "file": crate::decode::to_json(&raw, &kid, &empty)}));
     }
 }
